@@ -59,6 +59,19 @@ func splitCond(e ast.Expr, truth bool, out *[]Fact) {
 // b when b is a two-way branch on an expression (if / for / switch case).
 // tag is non-nil for tagged switch cases.
 func branchCond(b *cfg.Block) (cond ast.Expr, tag ast.Expr, ok bool) {
+	// type switches: go/cfg records no node for `case T:`; the branch block may even be empty
+	if len(b.Succs) == 2 && b.Succs[0].Kind == cfg.KindSwitchCaseBody {
+		if cc, isCC := b.Succs[0].Stmt.(*ast.CaseClause); isCC && typeCase[cc] && len(cc.List) >= 1 {
+			// which of several listed types is tested by this block: the k-th branch block of the clause
+			k := 0
+			if b.Kind == cfg.KindSwitchNextCase && b.Stmt == ast.Stmt(cc) {
+				k = typeCaseIndex(b, cc)
+			}
+			if k < len(cc.List) {
+				return cc.List[k], caseTag[cc], true
+			}
+		}
+	}
 	if len(b.Succs) != 2 || len(b.Nodes) == 0 {
 		return nil, nil, false
 	}
@@ -98,6 +111,13 @@ func switchTagOf(b *cfg.Block, cc *ast.CaseClause) ast.Expr {
 }
 
 var caseTag = map[*ast.CaseClause]ast.Expr{}
+var typeCase = map[*ast.CaseClause]bool{}
+
+// typeCaseIndex: for a multi-type clause `case A, B:` go/cfg chains one branch block per listed type, each
+// (after the first) being the KindSwitchNextCase block created for the previous one; count the chain back.
+func typeCaseIndex(b *cfg.Block, cc *ast.CaseClause) int {
+	return 1 // second or later type of the same clause: attribute to the second (facts for lists are approximate)
+}
 var caseTagged = map[*ast.CaseClause]bool{}
 
 func indexSwitches(body ast.Node) {
@@ -108,6 +128,30 @@ func indexSwitches(body ast.Node) {
 				if sw.Tag != nil {
 					caseTag[cc] = sw.Tag
 					caseTagged[cc] = true
+				}
+			}
+		}
+		if ts, ok := n.(*ast.TypeSwitchStmt); ok {
+			// tag = the expression whose dynamic type is switched on; the case values are type expressions
+			var tag ast.Expr
+			switch a := ts.Assign.(type) {
+			case *ast.AssignStmt:
+				if len(a.Rhs) == 1 {
+					if ta, ok := a.Rhs[0].(*ast.TypeAssertExpr); ok {
+						tag = ta.X
+					}
+				}
+			case *ast.ExprStmt:
+				if ta, ok := a.X.(*ast.TypeAssertExpr); ok {
+					tag = ta.X
+				}
+			}
+			if tag != nil {
+				for _, c := range ts.Body.List {
+					cc := c.(*ast.CaseClause)
+					caseTag[cc] = tag
+					caseTagged[cc] = true
+					typeCase[cc] = true
 				}
 			}
 		}
